@@ -609,6 +609,9 @@ class ModelSpec:
         """
         return self.update(
             formula=self.formula.differentiate(*wrt, use_sympy=use_sympy),
+            # Any recorded structure describes the columns of the original
+            # formula, not of its gradient.
+            structure=None,
         )
 
     # Only include dataclass fields when pickling.
